@@ -5,7 +5,8 @@ SPEC = dict(
     rule="block histories (3-30 blocks, i.e. longer than H) through the blockchain singleton: prior beta, latest block (random header incl. "
          "offenders / tickets marks, guarantees), posterior theta; recent_history.STFBetaH2BetaHDagger + STFBetaHDagger2BetaHPrime (which call "
          "History2HistoryDagger, serLastAccOut, lastAccOutRoot, AppendAndCommitMmr, MapWorkReportFromEg, NewItem, AddItem2BetaHPrime); posterior "
-         "beta committed as the next prior. H = 8 and (through an add-only export of the package variable) 1, 2, 3, 5; C = 2, 1..4, 341; prior "
+         "beta committed as the next prior; a quarter of the blocks are executed but NOT committed (fork sibling / block rejected later): the next "
+         "block then runs from the very same prior-state object and is compared with the model applied to the committed prior value. H = 8 and (through an add-only export of the package variable) 1, 2, 3, 5; C = 2, 1..4, 341; prior "
          "histories empty / partial / full / over-long, prior belts with empty positions, 0..C+1 guarantees (close hashes, repeated pairs, hashes "
          "reported before), 0..47 accumulation outputs. Compared observable after EVERY block: all entries (header hash, state root, commitment, "
          "reported pairs in order) and all belt peaks, recomputed by the model with its own Blake2b / Keccak; non-trivial = every block produced "
